@@ -46,6 +46,7 @@ class Builder:
     s.drv, s.wres = {}, {}
     s.nconst = {}
     s.nblk = 0
+    s.nhelp = 0
     s.writer_eps, s.reader_eps = [], []       # bookkeeping used by the C09 injections
     for x in d.insts[()].sigs:
       if x.kind == 'in': s.drv[x.root] = full_mask(x)
@@ -54,12 +55,39 @@ class Builder:
     r = ep.sig.root
     return (ep.mask & (s.drv.get(r, 0) | s.wres.get(r, 0))) == 0
 
-  def const_for(s, T, host):
-    used = s.nconst.setdefault(T, set())
-    vals = [v for v in range(min(1 << T[1], 64)) if v not in used]
+  def const_for(s, T, host, tied=None):
+    """a constant for one connect statement; small values are preferred so that several statements of one component (and of
+    different components, with equal and different widths) tie signals to EQUAL values"""
+    used = s.nconst.setdefault(tied.full if tied is not None else None, set()) if tied is not None else set()
+    pool = [v % (1 << T[1]) for v in (0, 0, 0, 1, 1, (1 << T[1]) - 1, 2, 5)] + [s.rng.randrange(0, 1 << min(T[1], 6))]
+    vals = [v for v in pool if v not in used] or [v for v in range(min(1 << T[1], 64)) if v not in used]
     if not vals: return None
-    v = s.rng.choice(vals); used.add(v)
-    return ConstEP(T, v, host)
+    v = s.rng.choice(vals)
+    c = ConstEP(T, v, host, tied)
+    if tied is not None: used.add(v)
+    return c
+
+  def tie(s, c, ep):
+    c.tied = ep
+    s.nconst.setdefault(ep.full, set()).add(c.value)
+
+  def wrap_helpers(s, host, lines):
+    """move some of the write statements of an update block into @s.func helpers, 1..3 calls deep (helpers calling helpers);
+    returns the lines that stay in the block.  The innermost helper always holds at least one write."""
+    rng = s.rng
+    depth = rng.choice([1, 2, 2, 3])
+    names = [f'hf{s.nhelp}_{i}' for i in range(depth)]; s.nhelp += 1
+    bodies = [[] for _ in range(depth)]
+    lines = list(lines); rng.shuffle(lines)
+    bodies[-1].append(lines.pop())
+    keep = []
+    for l in lines:
+      k = rng.randrange(-1, depth)
+      (keep if k < 0 else bodies[k]).append(l)
+    for i in range(depth - 1): bodies[i].append(f'{names[i + 1]}()')
+    for i in range(depth): s.d.stmts[host].append(('func', names[i], bodies[i]))
+    s.d.features.add(f'helpers:{depth}')
+    return keep + [f'{names[0]}()']
 
   def const_text(s, T):
     if T[0] == 'b': return str(s.rng.randrange(0, 1 << min(T[1], 8)))
@@ -103,6 +131,7 @@ class Builder:
             writes.append((e, '@='))
         if lines:
           name = f'ub{s.nblk}'; s.nblk += 1
+          if rng.random() < 0.3: lines = s.wrap_helpers(p, lines)
           d.stmts[p].append(('blk', name, False, lines, writes, reads))
     if special == 'parent+field':
       # one block writes a whole struct signal and then one of its fields again (one driver: the block)
@@ -173,6 +202,7 @@ class Builder:
         if not eps: continue
         v = rng.choice(eps)
         s.drv[v.sig.root] = s.drv.get(v.sig.root, 0) | v.mask
+        if isinstance(u, ConstEP): s.tie(u, v)
         d.stmts[host].append(('conn', v, u) if rng.random() < 0.5 else ('conn', u, v))
         members.append(v); n += 1; done = True; s.reader_eps.append(v)
         if overlap_readers and isinstance(u, EP) and v.chain and v.chain[-1][0] == 'S' and v.hi - v.lo >= 2:
@@ -191,7 +221,6 @@ class Builder:
               break
         break
       if not done and len(members) == 1: break
-    if n == 0 and isinstance(w, ConstEP): s.nconst[w.T].discard(w.value)
     return n
 
 def random_ep(rng, d, host):
@@ -216,7 +245,7 @@ def add_random_connects(rng, d, b, n):
     host = rng.choice(sorted(d.insts))
     a = random_ep(rng, d, host)
     if rng.random() < 0.12 and a.T[0] == 'b':
-      c = b.const_for(a.T, host)
+      c = b.const_for(a.T, host, tied=a)
       if c is None: continue
       d.stmts[host].append(('conn', a, c)); added += 1; continue
     H = d.insts[host]
@@ -261,6 +290,7 @@ def gen_design(rng, name, mode):
     if mode == 'mutated':
       add_random_connects(rng, d, b, rng.choice([1, 1, 2]))
   d.builder = b
+  d.ep_by_name = {e.full: e for h, st in d.conns() for e in (st[1], st[2])}
   return d
 
 # ---------------------------------------------------------------- Coq case
@@ -342,7 +372,15 @@ def simulate(ctx, d, top, nets, src, tag):
     top.sim_eval_combinational()
     for w, ms in nets:
       try:
-        wv = int(w.split('(0x')[1].rstrip(')'), 16) if w.startswith('Bits') else ec.sim_value(top, w)
+        wv = ec.const_value(w) if w.startswith('Bits') else ec.sim_value(top, w)
+        for m in ms:
+          e = d.ep_by_name.get(m)
+          if e is None or isinstance(e, ConstEP): continue
+          nb = getattr(ec.lookup(top, m), 'nbits', None)
+          if nb is not None and nb != e.hi - e.lo:
+            ctx.violation(feature_key(d, src, 'net-value', 'width'), f'design {d.name} ({tag}): in simulation {m} holds a value of {nb} bits but denotes {e.hi - e.lo} bits (net written by {w})',
+                          {'design_source': src, 'net_writer': w, 'net_members': ms, 'member': m, 'simulated_nbits': nb, 'expected_nbits': e.hi - e.lo})
+            return True
         bad = [(m, ec.sim_value(top, m)) for m in ms if not m.startswith('Bits') and ec.sim_value(top, m) != wv]
       except Exception as e:
         ctx.violation('C08:harness-simvalue', f'cannot read simulated value: {e!r}', {'design_source': src}, found_input=False); return True
@@ -407,11 +445,19 @@ def run(ctx):
           simulate(ctx, d, r[2], r[1], src, f'variant {v}')
     if any(o[0][0] == 'ok' for o in outcomes): nok += 1
     # a design built to be legal (port rules respected, one driver per bit, every net driven) must get its writers named
-    if mode == 'legal' and not d.features and outcomes[0][0][0] == 'err':
+    if mode == 'legal' and not (d.features & {'blk-parent+field', 'same-net-overlap'}) and outcomes[0][0][0] == 'err':
       ctx.violation(f'C08:legal-rejected:{outcomes[0][2][1]}',
                     f'design {d.name} is legal by construction (every net has exactly one driven member, port rules respected) but elaboration raises {outcomes[0][2][1]}: {outcomes[0][2][2][:200]}',
                     {'design_source': outcomes[0][1], 'exception': list(outcomes[0][2][1:3])})
     ctx.hist[f'levels:{d.levels}'] = ctx.hist.get(f'levels:{d.levels}', 0) + 1
+    feats = set(d.features)
+    cv = {}
+    for h, st in d.conns():
+      for e in (st[1], st[2]):
+        if isinstance(e, ConstEP): cv.setdefault((h, e.value), set()).add(e.T)
+    if any(len(v) > 1 for v in cv.values()) or any(sum(1 for hh, st in d.conns() if hh == h and any(isinstance(e, ConstEP) and e.value == val for e in (st[1], st[2]))) > 1 for (h, val) in cv):
+      feats.add('equal-constants-in-one-component')
+    for f in feats: ctx.hist['feature:' + f] = ctx.hist.get('feature:' + f, 0) + 1
     ctx.hist[f'connects:{"1-3" if nconn <= 3 else "4-10" if nconn <= 10 else "11-30"}'] = ctx.hist.get(f'connects:{"1-3" if nconn <= 3 else "4-10" if nconn <= 10 else "11-30"}', 0) + 1
     # all statement orders / orientations must give the same nets and the same writers (or the same error class)
     k0 = outcomes[0][0]
@@ -491,7 +537,7 @@ def replay(ctx, r):
       for n, v in rp.get('inputs', {}).items(): sc.set_input(top, n, v)
       top.sim_eval_combinational()
       w = rp['net_writer']
-      wv = int(w.split('(0x')[1].rstrip(')'), 16) if w.startswith('Bits') else ec.sim_value(top, w)
+      wv = ec.const_value(w) if w.startswith('Bits') else ec.sim_value(top, w)
       bad = [(m, ec.sim_value(top, m)) for m in rp['net_members'] if not m.startswith('Bits') and ec.sim_value(top, m) != wv]
       print(f'writer {w} = {wv:#x}; members that differ: {bad}')
       if bad: print('REPRODUCED: a member of the net does not carry the writer\'s value'); rc = 1
